@@ -292,6 +292,9 @@ LEVEL_TEXT = ("Theorems (Props/C02) for every location tree of any depth and ope
 LEVEL_TEXT += (" Totality (used by C01): parseLocation_total — the model of parseLocation does not panic on any location text of C01's domain "
                "predicate GbLayout.isLocText (parseLocation_total_shape: atoms without parentheses/commas, any operator word, complement with one operand, "
                "any nesting; parseLocation_print_total for the canonical texts); parseLocation_panics_unclosed names what still panics: a '(' that no ')' follows.")
+LEVEL_TEXT += (" Read after write (used by C03): read_write_assembled — for every structure p representing l, parseLocation (buildLoc p) is a structure "
+               "representing l with the same partial ends (parsed_written_structure, written_text, read_write_denotes; read_write_leaf for single spans with "
+               "arbitrary int coordinates).")
 LEVEL_NOTE = ("Trusted: Lean kernel; harness + driver; the INSDC grammar/denotation typed by hand (markers on span ends only); Go int as Int; "
               "buildLoc/getSeq are pure functions of the structure — that the Go functions do not modify the caller's structure is tied only by "
               "observing each feature twice; the flags parseLocation puts on inner nodes are pinned by the correspondence and by parsed_structure "
